@@ -16,13 +16,18 @@ RedT == RedQ \cup {Pm(<<"b">>, <<>>, FALSE), Pm(<<"B">>, <<"%2B">>, TRUE), Pm(<<
 Queries(Ks, Vs, Red) == {<<>>} \cup {<<x>> : x \in Param1(Ks, Vs)} \cup Pair(Red)
                         \cup {<<x, m>> : x \in Red, m \in MktParams} \cup {<<m, x>> : x \in Red, m \in MktParams} \cup {<<m>> : m \in MktParams}
 UrlsOf(Ps, Ks, Vs, Red) == {U(p, q, q # <<>>) : p \in Ps, q \in Queries(Ks, Vs, Red)} \cup {U(p, <<>>, TRUE) : p \in Ps}
-UrlsQuick == UrlsOf(PathsQ, KeysQ, ValsQ, RedQ)
-UrlsThorough == UrlsOf(PathsT, KeysQ, ValsT, RedT)
-C(m, i, p) == [mkt |-> m, icase |-> i, pass |-> p, mparams |-> {<<"utm_source">>}]
-CfgsAll == {C(m, i, p) : m, i, p \in BOOLEAN}
+\* a key that is percent-encoded: its encoded form ("%C3%A9") sorts BEFORE the letters, its decoded form after them
+EacKey == Pm(<<"~e~">>, <<"a">>, TRUE)
+EacUrls == {U(<<"/", "p">>, q, TRUE) : q \in {<<EacKey>>, <<EacKey, Pm(<<"k">>, <<"a">>, TRUE)>>, <<Pm(<<"k">>, <<"a">>, TRUE), EacKey>>, <<Pm(<<"%c3%a9">>, <<"a">>, TRUE), Pm(<<"b">>, <<"+">>, TRUE)>>}}
+UrlsQuick == UrlsOf(PathsQ, KeysQ, ValsQ, RedQ) \cup EacUrls
+UrlsThorough == UrlsOf(PathsT, KeysQ, ValsT, RedT \cup {EacKey}) \cup EacUrls
+\* ms: the configured set of marketing parameters ("utm" = {utm_source}, "none" = the empty set; the empty set only matters when they are ignored)
+MSet(ms) == IF ms = "utm" THEN {<<"utm_source">>} ELSE {}
+C(m, i, p, ms) == [mkt |-> m, icase |-> i, pass |-> p, ms |-> ms, mparams |-> MSet(ms)]
+CfgsAll == {C(m, i, p, "utm") : m, i, p \in BOOLEAN} \cup {C(TRUE, i, p, "none") : i, p \in BOOLEAN}
 UrlSeq == SetToSeq(Urls)
 Idx(u) == CHOOSE i \in 1..Len(UrlSeq) : UrlSeq[i] = u
-Emit == PrintT(<<"REPLAY", ToJson([cfg |-> [mkt |-> cfg.mkt, icase |-> cfg.icase, pass |-> cfg.pass], ru |-> Idx(ru)])>>)
+Emit == PrintT(<<"REPLAY", ToJson([cfg |-> [mkt |-> cfg.mkt, icase |-> cfg.icase, pass |-> cfg.pass, ms |-> cfg.ms], ru |-> Idx(ru)])>>)
 UniverseBlob == PrintT(<<"UNIVERSE", ToJson([urls |-> UrlSeq])>>)
 ASSUME UniverseBlob
 =============================================================================
